@@ -10,6 +10,7 @@ inconclusive, worker crash) -- never reported as a VIOLATION.
 
 import hashlib
 import importlib
+import contextlib
 import json
 import multiprocessing as mp
 import os
@@ -105,6 +106,26 @@ class Rec:
                     return "unsat"
             self.inconclusive += 1
         return r
+
+    @contextlib.contextmanager
+    def guarded(self, ctx, label, viol_fn=None):
+        """real code under test runs inside: an ordinary exception it raises (on an input the property
+        quantifies over) is a violation candidate like any other -- recorded with the model of the
+        path and replayed before it is reported -- instead of crashing the work item"""
+        try:
+            yield
+        except Exception as e:  # noqa  (the executor's control exceptions derive from BaseException)
+            err = repr(e)
+
+            def vf(m):
+                d = dict(viol_fn(m)) if viol_fn is not None else {}
+                d["raised"] = err
+                if "signature" in d:
+                    d["signature"] = list(d["signature"]) + ["raised", type(e).__name__]
+                return d
+
+            self.refute(ctx, True, label + " (real code raised)", vf)
+            raise symx.PathAbort()
 
     def refute_identity(self, ctx, bad, label, viol_fn=None):
         """Like refute, but first tries to discharge `bad` WITHOUT the path
